@@ -916,4 +916,100 @@ Proof.
   - apply all_bytes_Forall. vm_compute. reflexivity.
   - apply all_bytes_Forall. vm_compute. reflexivity.
   - vm_compute. reflexivity.
+
+(* ------------------------------------------------------------------ the whole-program theorems for valid programs *)
+From PV Require Spec.LuaGrammar Proofs.ParserComplete2 Proofs.ValidDomain1 Proofs.ValidDomainLex Proofs.ValidDomainC10.
+
+(* The theorems above ask of the token list: parsed to its end, tree inside the writer domain, no trailing field separator.
+   For a VALID program these follow from a derivation in the reference grammar (C09_valid_in_domain and its variant with
+   g_no_trailing_sep, Proofs/ValidDomain6.v):
+   vsrc src ss lts g  :=  src is a byte string of the reference dialect, lts its lexer tokens, g a derivation of them
+     (Spec/LuaGrammar.v derives) with line_scoped, excl g (the side condition of C08_complete), g_no_paren_suffix g
+     (finding C09-paren-suffix-assert) and g_no_trailing_sep g (no table constructor of the derivation ends in a field
+     separator: the deviation C10_indent_trailing_sep_refuted).
+   Left as hypotheses: gaps_tidy / codes_tidy of the token list (not facts about every source:
+   C10_gaps_tidy_not_for_every_source). *)
+Theorem C10_output_form_valid : forall w src ss lts g,
+  ValidDomainC10.vsrc src ss lts g -> gaps_tidy (map LexToken.lex_token lts) = true ->
+  exists root e, lua_parse (map LexToken.lex_token lts) = Ok (root, e) /\
+    writer_text (fmt_spaces w) (map LexToken.lex_token lts) (view root) = Ok (ref_fmt (gap_fmt w) (map LexToken.lex_token lts)).
+Proof. exact ValidDomainC10.output_form_valid. Qed.
+Print Assumptions C10_output_form_valid.
+
+(* indentation follows nesting, for every valid program: luafmt succeeds and every code token that begins a line of its
+   output is preceded by exactly indentwidth x (blocks and brackets open at the token) spaces *)
+Theorem C10_indent_valid : forall w src ss lts g,
+  ValidDomainC10.vsrc src ss lts g -> codes_tidy (map LexToken.lex_token lts) = true ->
+  exists root e cs, lua_parse (map LexToken.lex_token lts) = Ok (root, e) /\
+    writer_text (fmt_spaces w) (map LexToken.lex_token lts) (view root) = Ok (chunks_text (fmt_spaces w) cs) /\
+    codes_of cs = sig_codes (map LexToken.lex_token lts) 0 /\
+    forall A i text B p q, cs = A ++ Code i text :: B ->
+      chunks_text (fmt_spaces w) A = p ++ NL :: q -> noNL q -> forallb is_sp q = true ->
+      sigb (map LexToken.lex_token lts) i = true /\ 0 <= token_depth (map LexToken.lex_token lts) i /\
+      q = repeat SP (Z.to_nat w * Z.to_nat (token_depth (map LexToken.lex_token lts) i)).
+Proof. exact ValidDomainC10.indent_valid. Qed.
+Print Assumptions C10_indent_valid.
+
+(* re-indentation invariance for two valid programs: the hypotheses on both layouts are derivation facts *)
+Theorem C10_reindent_invariant_valid : forall w src1 ss1 lts1 g1 src2 ss2 lts2 g2,
+  ValidDomainC10.vsrc src1 ss1 lts1 g1 -> gaps_tidy (map LexToken.lex_token lts1) = true ->
+  ValidDomainC10.vsrc src2 ss2 lts2 g2 -> gaps_tidy (map LexToken.lex_token lts2) = true ->
+  reindent_equiv (map LexToken.lex_token lts1) (map LexToken.lex_token lts2) ->
+  exists root1 e1 root2 e2 out,
+    lua_parse (map LexToken.lex_token lts1) = Ok (root1, e1) /\ lua_parse (map LexToken.lex_token lts2) = Ok (root2, e2) /\
+    writer_text (fmt_spaces w) (map LexToken.lex_token lts1) (view root1) = Ok out /\
+    writer_text (fmt_spaces w) (map LexToken.lex_token lts2) (view root2) = Ok out.
+Proof. exact ValidDomainC10.reindent_invariant_valid. Qed.
+Print Assumptions C10_reindent_invariant_valid.
+
+(* idempotence for valid programs, partial: the first pass needs no hypothesis about parser or writer; for the second pass
+   the parser / domain hypotheses of C10_idempotent are replaced by ONE grammar fact: the re-lexed formatted text has a
+   derivation (within the same conditions).  That it has one - the derivation of the input with its leaves re-indexed;
+   line_scoped is kept because nl_before is (C09_luafmt_holds) - is not proved here: re-indexing a derivation along
+   formatted_as needs an induction over all 17 grammar functions (the shape of ParserComplete5.cons_all), not done. *)
+Theorem C10_idempotent_valid_partial : forall w src ss lts g,
+  ValidDomainC10.vsrc src ss lts g -> gaps_tidy (map LexToken.lex_token lts) = true ->
+  exists root e out ss' lts',
+    lua_parse (map LexToken.lex_token lts) = Ok (root, e) /\
+    writer_text (fmt_spaces w) (map LexToken.lex_token lts) (view root) = Ok out /\ Forall byte out /\
+    LuaLex.spec_lex out = Some ss' /\ Lexer.model_lex [out] = Ok lts' /\
+    formatted_as (gap_fmt w) (map LexToken.lex_token lts) (map LexToken.lex_token lts') /\
+    gaps_tidy (map LexToken.lex_token lts') = true /\
+    forall g', LuaGrammar.derives (map LexToken.lex_token lts') g' = true ->
+      LuaGrammar.line_scoped (map LexToken.lex_token lts') g' = true -> ParserComplete2.excl g' = true ->
+      ValidDomain1.g_no_paren_suffix g' = true -> ValidDomain1.g_no_trailing_sep g' = true ->
+      exists root' e', lua_parse (map LexToken.lex_token lts') = Ok (root', e') /\
+        writer_text (fmt_spaces w) (map LexToken.lex_token lts') (view root') = Ok out.
+Proof. exact ValidDomainC10.idempotent_valid_partial. Qed.
+Print Assumptions C10_idempotent_valid_partial.
+
+(* non-vacuity: the program of C10_idempotent_text_nonvacuous (function, table over two lines, one-line if with else,
+   comments of all kinds) satisfies vsrc with the derivation read off the parser model's tree, and the re-lexed output of
+   pass 1 has a derivation within the same conditions *)
+Definition C10_v_lts : list Lexer.tok := match Lexer.model_lex [C10_idem_src] with Ok l => l | Err _ => [] end.
+Definition C10_v_g : tree :=
+  match lua_parse (map LexToken.lex_token C10_v_lts) with Ok (root, _) => ValidDomainLex.deriv_of_tree root | Err _ => PNone end.
+Definition C10_v_out : list Z :=
+  match lua_parse (map LexToken.lex_token C10_v_lts) with
+  | Ok (root, _) => match writer_text (fmt_spaces 2) (map LexToken.lex_token C10_v_lts) (view root) with Ok o => o | Err _ => [] end
+  | Err _ => []
+  end.
+Definition C10_v_lts' : list Lexer.tok := match Lexer.model_lex [C10_v_out] with Ok l => l | Err _ => [] end.
+Definition C10_v_g' : tree :=
+  match lua_parse (map LexToken.lex_token C10_v_lts') with Ok (root, _) => ValidDomainLex.deriv_of_tree root | Err _ => PNone end.
+
+Example C10_valid_nonvacuous :
+  (exists ss, ValidDomainC10.vsrc C10_idem_src ss C10_v_lts C10_v_g) /\
+  gaps_tidy (map LexToken.lex_token C10_v_lts) = true /\ codes_tidy (map LexToken.lex_token C10_v_lts) = true /\
+  zlist_eqb C10_v_out C10_idem_src = false /\ Lexer.model_lex [C10_v_out] = Ok C10_v_lts' /\
+  LuaGrammar.derives (map LexToken.lex_token C10_v_lts') C10_v_g' = true /\
+  LuaGrammar.line_scoped (map LexToken.lex_token C10_v_lts') C10_v_g' = true /\
+  ParserComplete2.excl C10_v_g' = true /\ ValidDomain1.g_no_paren_suffix C10_v_g' = true /\
+  ValidDomain1.g_no_trailing_sep C10_v_g' = true.
+Proof.
+  split.
+  { eexists. split.
+    { apply Forall_forall. intros x Hx. apply byteb_spec. revert x Hx. apply forallb_forall. vm_compute. reflexivity. }
+    split; [vm_compute; reflexivity|]. repeat (split; [vm_compute; reflexivity|]). vm_compute. reflexivity. }
+  repeat (split; [vm_compute; reflexivity|]). vm_compute. reflexivity.
 Qed.
